@@ -16,6 +16,7 @@ def make_summary(F):
     S.post['__site_hooks__'] = [post_facts]
     S.posttab = POSTS
     S.pre.update({k: v for k, v in PRES.items()})
+    install_pres(S)
     S.inv.update(INVS)
     return S
 
@@ -204,15 +205,27 @@ def post_checked_add(an, cb, t, pay):
     return eq(lin(pay), add(a, b))
 
 
+def post_parse_pointer(an, cb, t, pay):
+    # Ok(p): index + 2 <= len(octets), p < chunk_start
+    L = _len_of_arg(an, t['args'][0])
+    cs = an.ev_op(t['args'][1])
+    ix = an.ev_op(t['args'][2])
+    out = []
+    if L is not None and ix is not None:
+        out.append(le(add(ix, lin(c=2)), L))
+    if cs is not None:
+        out.append(lt(lin(pay), cs))
+    return out
+
+
 POSTS = {
+    'name::wire::parse_pointer': post_parse_pointer,
     'name::Name::try_from_compressed': post_parse_name,
     'name::wire::parse_compressed_name': post_parse_name,
     'name::Name::try_from_uncompressed': post_parse_name,
-    'name::Name::try_from_uncompressed_all': post_parse_name,
     'name::Name::skip_compressed': post_skip_compressed,
     'name::wire::skip_compressed_name': post_skip_compressed,
     'name::Name::validate_uncompressed': post_validate_uncompressed,
-    'name::Name::validate_uncompressed_all': post_validate_uncompressed,
     'name::wire::validate_uncompressed_name': post_validate_uncompressed,
     'message::reader::read_u16': post_read_u(2),
     'message::reader::read_u32': post_read_u(4),
@@ -459,3 +472,188 @@ def run_sites(R, F, fns, rule, exceptions=None, S=None, skip_kinds=()):
                     verdict, why = False, 'exception void, premise failed: %s (%s)' % (pdetail, reason)
             R.require(bool(verdict), rule, key, fn.where(b), why, why)
     return total
+
+
+# ------------------------------------------------------------------ verifying the summaries themselves
+from qv import origins
+
+
+def _len_atom_param(i):
+    return lin('len:(*_%d)' % i)
+
+
+def prove_value(an, leaves, goal_fn, forward_ok=None):
+    """Prove goal_fn(value) at every leaf that may have produced the value.  Returns (ok, [detail])."""
+    fn = an.fn
+    details = []
+    ok = True
+    if not leaves:
+        return False, ['no producing statement found']
+    for lf in leaves:
+        if lf[0] == 'rv':
+            _, b, i, rv = lf
+            an._site = (b, i)
+            e = an.ev_rv(rv, 0, (b, i))
+            if e is None:
+                ok = False
+                details.append('value computed at %s is not linear' % fn.where(b))
+                continue
+            goals = goal_fn(e)
+            good, facts, res = an.prove(b, i, goals)
+            if not good:
+                ok = False
+                details.append('at %s cannot prove %s' % (fn.where(b), '; '.join(fmt(g) + ' <= 0' for g, r in zip(goals, res) if not r)))
+        elif lf[0] == 'const':
+            v = const_int(lf[1])
+            if v is None or not all(entails([], g) for g in goal_fn(lin(c=v))):
+                ok = False
+                details.append('constant %s violates the bound' % const_name(lf[1]))
+        elif lf[0] == 'call':
+            _, b, t, path = lf
+            if forward_ok and forward_ok(b, t, path):
+                continue
+            # value is (a projection of) another call's result: use that callee's postcondition on its success edge
+            nxt = t['t']
+            pay = 'P:' + place_str({'l': t['dest']['l'], 'p': _denorm(path)})
+            f = POSTS.get(callee_name(t))
+            cs = (f(an, b, t, 'P:' + place_str({'l': t['dest']['l'], 'p': _denorm(path[:2])})) or []) if f and len(path) >= 2 else []
+            e = lin(pay)
+            goals = goal_fn(e)
+            an._site = (nxt, 0) if nxt is not None else (b, None)
+            base = an.facts_at(nxt, 0) if nxt is not None else []
+            atoms = set(a for c in base + cs + goals for a in c)
+            an._collect_tys(atoms)
+            allf = base + cs + an.type_facts(atoms) + an.array_len_facts(atoms)
+            if not all(entails(allf, g) for g in goals):
+                ok = False
+                details.append('value returned by %s at %s: bound not implied by its summary' % (paths.short(callee_name(t)), fn.where(b)))
+        elif lf[0] == 'param':
+            ok = False
+            details.append('value is parameter _%d%s: needs a precondition' % (lf[1], lf[2]))
+        else:
+            ok = False
+            details.append('untraceable: %s' % (lf[1],))
+    return ok, details
+
+
+def _denorm(path):
+    out = []
+    for p in path:
+        if p == 'deref':
+            out.append('deref')
+        elif p[0] == 'f':
+            out.append({'f': p[1], 'n': str(p[1]), 'ty': ''})
+        elif p[0] == 'down':
+            out.append({'down': p[1], 'n': p[1]})
+    return out
+
+
+def params_immutable(fn, idxs):
+    return all(not [d for d in fn.defs().get(i, []) if not fn.blocks[d[0]]['cleanup']] for i in idxs)
+
+
+def forwards_to(fn, t, callee_suffixes, same_args=True):
+    """The call passes this function's own parameters through in order (a thin wrapper)."""
+    n = callee_name(t)
+    if not any(n.endswith(s) for s in callee_suffixes):
+        return False
+    for k, a in enumerate(t['args']):
+        if a['k'] == 'const':
+            continue
+        c = fn.canon(a['pl']) if is_place(a) else None
+        if c is None:
+            return False
+        # `&*octets` re-borrows and plain copies of parameter k+1
+        sl_ok = (c['l'] == k + 1) or (fn.canon({'l': a['pl']['l'], 'p': a['pl']['p'] + ['deref'], 'ty': ''})['l'] == k + 1)
+        if not sl_ok:
+            return False
+    return True
+
+
+def verify_post(R, F, S, rule, gpath, specs, wrapper_of=()):
+    """specs: [(payload sub-path, description, goal_fn(an, expr) -> [constraints])].  The bound must hold for the value
+    returned in Ok(..) / Some(..) at every success return of gpath."""
+    fn = F.fn(gpath)
+    an = Analyzer(fn, F, S)
+    rty = fn.local_ty(0)
+    top = [('down', 'Some'), ('f', 0)] if rty.startswith('std::option::Option') else [('down', 'Ok'), ('f', 0)]
+    imm = params_immutable(fn, range(1, fn.argc + 1))
+    for sub, desc, gf in specs:
+        leaves = origins.trace(fn, 0, top + list(sub))
+        ok, det = prove_value(an, leaves, lambda e, gf=gf: gf(an, e), forward_ok=lambda b, t, path: forwards_to(fn, t, wrapper_of))
+        R.require(ok and imm, rule, '%s|post:%s' % (gpath, desc), fn.where(), 'every value returned on success satisfies %s (%d producing statements)' % (desc, len(leaves)),
+                  'summary "%s" of %s does not hold: %s' % (desc, gpath, '; '.join(det) if det else 'a parameter is reassigned'))
+
+
+# ------------------------------------------------------------------ declared preconditions
+# term := ('arg', i) | ('len', i) (length of the slice passed as argument i) | ('const', c) | ('sum', [terms])
+PRE_SPECS = {
+    'name::wire::parse_pointer': [('lt', ('arg', 3), ('len', 1), 'index < len(octets)')],
+}
+
+
+def _term(an, term, call=None):
+    k = term[0]
+    if k == 'const':
+        return lin(c=term[1])
+    if k == 'sum':
+        e = lin()
+        for x in term[1]:
+            y = _term(an, x, call)
+            if y is None:
+                return None
+            e = add(e, y)
+        return e
+    i = term[1]
+    if call is None:
+        return lin('L%d' % i) if k == 'arg' else lin('len:(*_%d)' % i)
+    a = call['args'][i - 1]
+    if k == 'arg':
+        return an.ev_op(a)
+    return _len_of_arg(an, a)
+
+
+def _rel(kind, a, b):
+    return [lt(a, b)] if kind == 'lt' else [le(a, b)]
+
+
+def install_pres(S):
+    for gp, specs in PRE_SPECS.items():
+        def mk(specs=specs):
+            def f(an):
+                out = []
+                for kind, ta, tb, _ in specs:
+                    a, b = _term(an, ta), _term(an, tb)
+                    if a is not None and b is not None:
+                        out += _rel(kind, a, b)
+                return out
+            return f
+        S.pre[gp] = mk()
+
+
+def check_pres(R, F, S, rule, scope=None):
+    """Every call of a function with a declared precondition establishes it (E5 at the call site)."""
+    n = 0
+    for gp, specs in PRE_SPECS.items():
+        for fn in F.fns.values():
+            if fn.crate != 'quandary' or '::tests::' in fn.gpath:
+                continue
+            an = None
+            k = 0
+            for b, t in fn.calls():
+                if callee_name(t) != gp:
+                    continue
+                k += 1
+                n += 1
+                an = an or Analyzer(fn, F, S)
+                an._site = (b, None)
+                for kind, ta, tb, desc in specs:
+                    a, c = _term(an, ta, t), _term(an, tb, t)
+                    ok = False
+                    why = 'operands not linear'
+                    if a is not None and c is not None:
+                        goals = _rel(kind, a, c)
+                        ok, facts, res = an.prove(b, None, goals)
+                        why = 'cannot prove %s' % '; '.join(fmt(g) + ' <= 0' for g in goals)
+                    R.require(ok, rule, '%s|pre:%s@%s#%d' % (gp, desc, fn.gpath, k), fn.where(b), 'call establishes %s' % desc, 'call of %s does not establish its precondition %s: %s' % (gp, desc, why))
+    return n
